@@ -63,6 +63,8 @@ PowerKinds == {"ban", "kick", "pl", "jr", "leave", "join"}
 ByzKinds == {"ban", "kick", "pl", "topic", "leave"}
 ResKinds == {"ban", "kick", "pl", "jr", "leave"}
 FaultKinds == {"ban", "kick", "leave", "invite"}
+BanKinds == {"ban", "kick", "leave"}
+TwoKinds == {"ban", "kick"}
 TS1 == {1}
 TS12 == {1, 2}
 =============================================================================
